@@ -309,8 +309,15 @@ func init() {
 			f := strings.SplitN(v, ":", 2)
 			slowIdx, slowMs = atoi(f[0]), atoi(f[1])
 		}
+		// evaluations of the rate function that began while another one was still running: the function a trigger hands to the
+		// tick loop keeps state between calls (carried fractions, the position in a cycle) and is written for one caller
+		var inEval, evalOverlap atomic.Int64
 		wrap := func(fn api.RateFunction) api.RateFunction {
 			return func(t time.Time) int {
+				if inEval.Add(1) > 1 {
+					evalOverlap.Add(1)
+				}
+				defer inEval.Add(-1)
 				rl.mu.Lock()
 				idx := len(rl.times)
 				rl.mu.Unlock()
@@ -751,7 +758,7 @@ func init() {
 			"maxflight=%d shared=%d res=%d/%d/%d truth=%d/%d metrics=%d/%d/%d/%d evals=%d sumrates=%d lastval=%d cadence=%s "+
 			"setups=%d setupFirst=%d tdLast=%d tdOrder=%d failed=%d err=%d leak=%d envBad=%d envAfter=%s stageOrderBad=%d "+
 			"laststart=%d trigdur=%d idchanged=%d cleanupBad=%d cleanupEarly=%d setupHandleInIteration=%d pushed=%s stagestarts=%s progressAfterCancel=%d printAfter=%d "+
-			"durmin=%d durmax=%d metsumus=%d stall=%d",
+			"durmin=%d durmax=%d metsumus=%d stall=%d evaloverlap=%d",
 			ret.Milliseconds(), startedAtRet, finishedAtRet, inflightAtRet, startedAfter, progressAfter, boolTok(gapless), mx,
 			maxflight.Load(), shared.Load(), sn.SuccessfulIterationDurations.Count, sn.FailedIterationDurations.Count,
 			sn.DroppedIterationCount, truthS.Load(), truthF.Load(), g.succ, g.fail, g.dropped, g.setupSucc+g.setupFail,
@@ -759,6 +766,6 @@ func init() {
 			envBad.Load(), envAfter, stageSeqBad.Load(), lastStart, trig.Duration.Milliseconds(),
 			idChanged.Load(), cleanupBad, cleanupEarly.Load(), gotSetupHandle.Load(), pushed, stageStarts, progressAfterCancel, printAfter,
 			sn.SuccessfulIterationDurations.Min.Microseconds(), sn.SuccessfulIterationDurations.Max.Microseconds(), iterationSumMicros(m.Registry),
-			time.Duration(maxGap.Load()).Milliseconds())
+			time.Duration(maxGap.Load()).Milliseconds(), evalOverlap.Load())
 	})
 }
